@@ -267,6 +267,10 @@ func (lb *LoadBalancer) setupCircuitBreaker(cfg *config.Config) {
 
 	// Set defaults
 	if cbSettings.MaxRequests == 0 {
+		// Unset: allow as many half-open trials as are needed to close again.
+		cbSettings.MaxRequests = cbSettings.SuccessThreshold
+	}
+	if cbSettings.MaxRequests == 0 {
 		cbSettings.MaxRequests = 1
 	}
 	if cbSettings.Interval == 0 {
